@@ -158,6 +158,17 @@ type Source struct {
 	FiredAPI string
 	// MaxCalls bounds the run (0 = unbounded); exceeding it panics with stepCap.
 	MaxCalls int
+	// Record makes the source remember the requested size of every call
+	// (0 for Seek), so that fault plans can be biased to the large reads.
+	Record bool
+	Req    []int32
+}
+
+func (s *Source) rec(n int) {
+	for len(s.Req) < s.Stats.Calls-1 {
+		s.Req = append(s.Req, 0)
+	}
+	s.Req = append(s.Req, int32(n))
 }
 
 func (s *Source) step() {
@@ -196,6 +207,9 @@ func (s *Source) fire(op string) {
 
 func (s *Source) Read(p []byte) (int, error) {
 	s.step()
+	if s.Record {
+		s.rec(len(p))
+	}
 	s.Stats.Reads++
 	if len(p) > s.Stats.MaxReadReq {
 		s.Stats.MaxReadReq = len(p)
